@@ -193,6 +193,8 @@ def run_c04(tier):
     jobs = [{'kind': 'aggregation', 'seed': vlib.jseed(seed, i, r), 'case': cs} for r in range(reps) for i, cs in enumerate(cases)]
     # long lists (127 .. 513 entries): the laws do not depend on the length of the list
     jobs += [{'kind': 'aggregation-large', 'seed': vlib.jseed(seed, 7000 + k), 'case': {}} for k in range(2 if tier == 'quick' else 24)]
+    # key objects of every provenance (incl. the public key shares of threshold key generation and of a DKG run)
+    jobs += [{'kind': 'aggregation-origins', 'seed': vlib.jseed(seed, 8000 + k), 'case': {}} for k in range(4 if tier == 'quick' else 40)]
     execute(ck, 'C04', jobs)
     for cs in cases:
         ck.case(vlib.digest([cs['keys'], cs['cut']]), len(cs['keys']) > 1)
